@@ -601,7 +601,7 @@ class CallMixin(ExprMixin):
             if node.keywords:
                 raise UnsupportedError(f"keyword arguments to .{attr}() at line {node.lineno}")
             # re-read receiver: argument evaluation cannot change it (args are pure here) but states forked
-            if kind in ("str", "strlit") and ("Str." + attr) in S.CONTRACTS:
+            if (kind == "str" or (kind == "strlit" and self.contract.strings == "text")) and ("Str." + attr) in S.CONTRACTS:
                 recv_s = O.coerce(v, T.STR) if kind == "strlit" else v
                 yield from self.call_contract(S.CONTRACTS["Str." + attr], recv_s, vals, {}, s, node, recv_node=recv_node)
             elif kind == "opaque" and ("Opaque." + attr) in S.CONTRACTS:
